@@ -366,14 +366,28 @@ def build(ck):
     return ok1 and ok2, ok3
 
 
+def finish_breaks(ck, violated_kinds):
+    """every break that is not explained by a concrete failing input of the same kind is reported (no-failing-input-found).
+    The standing D7 violations never explain anything else."""
+    if not ck.breaks:
+        return
+    other = [v for v in ck.violations if not v["no_input"] and v["key"].get("kind") != "lyman_continuum_extrapolation"]
+    unexplained = sorted(k for k in ck.c18_brk_kinds if k not in violated_kinds)
+    untagged = [b for b in ck.breaks if not b.startswith("correspondence C18")]
+    if unexplained or (untagged and not other):
+        ck.violation("broken without a failing input: " + " || ".join(b[:1500] for b in ck.breaks),
+                     {"no_longer_checks": ck.breaks, "unexplained_kinds": unexplained}, key={"kind": "break"}, no_input=True)
+
+
 def run(ck):
     cov = ck.coverage
+    ck.c18_brk_kinds = set()
     try:
         tabs = regenerate()
     except Exception as e:
         ck.breaks.append("data files no longer parse (independent reader): %r" % (e,))
         ck.prove()
-        ck.resolve_breaks_without_input()
+        finish_breaks(ck, set())
         return
     T = Tables(tabs)
     obl = T.obligations()
@@ -390,6 +404,7 @@ def run(ck):
 
     def viol(kind, what, replay, key):
         nviol[kind] = nviol.get(kind, 0) + 1
+        nviol[key["kind"]] = nviol.get(key["kind"], 0) + 1
         if nviol[kind] <= 2:
             ck.violation(what, replay, key=key)
 
@@ -485,6 +500,7 @@ def run(ck):
                 mism[kind] = mism.get(kind, 0) + 1
                 if mism[kind] <= 3 and not why:
                     ck.breaks.append("correspondence C18 model <-> real code (%s): op %r impl=%s model=%s" % (kind, op, li, lm))
+                    ck.c18_brk_kinds.add(key["kind"])
             if len(samples) < 6 and idx % 9973 == 17:
                 samples.append({"op": op, "impl": li, "model": lm})
     # ---- part 2: spectra (tables come from the real objects)
@@ -511,7 +527,9 @@ def run(ck):
         "spectrum tables are taken from the real constructors; their order conditions are decided on every run by the extracted checkers",
         "samplers: the random number is injected into RandomGenerator's state so that get_uniform_random_double returns it",
     ]
-    ck.resolve_breaks_without_input()
+    finish_breaks(ck, set(nviol))
+    if not ck.violations:
+        ck.resolve_breaks_without_input()
 
 
 def run_spectra(ck, T, d, oki, okm, viol, distinct, samples):
@@ -639,6 +657,7 @@ def run_spectra(ck, T, d, oki, okm, viol, distinct, samples):
             mism["S" + kd] = mism.get("S" + kd, 0) + 1
             if mism["S" + kd] <= 3 and not why:
                 ck.breaks.append("correspondence C18 sampler model <-> real %s: T=%r x=%r impl=%s model=%s" % (name, temp, x, li, lm))
+                ck.c18_brk_kinds.add("sampler_" + kd)
         if len(samples) < 10 and idx % 997 == 5:
             samples.append({"op": ops_i[idx], "impl": li, "model": lm})
     for kd, (score, why, rp) in sorted(d7.items()):
